@@ -241,8 +241,11 @@ class CallMixin:
         for c, srt in self.leaves(et):
             a = st.arr(key + c, 2, srt)
             i = Int('cp!i')
-            inner = Lambda([i], If(And(i >= dst.base, i < dst.base + n), Select(Select(a, src.arr), i - dst.base + src.base), Select(Select(a, dst.arr), i)))
-            st.heap[key + c] = Store(a, dst.arr, inner)
+            # fresh inner array B with a defining axiom (pattern-friendly; lambdas would poison E-matching)
+            B = z3.Const(fresh_name('cpy!' + key + c), z3.ArraySort(I, srt))
+            body = Select(B, i) == If(And(i >= dst.base, i < dst.base + n), Select(Select(a, src.arr), i - dst.base + src.base), Select(Select(a, dst.arr), i))
+            st.assume(z3.ForAll([i], body, patterns=[Select(B, i)]))
+            st.heap[key + c] = Store(a, dst.arr, B)
             st.writes.append((key + c, (dst.arr, None)))
 
     def do_append(self, fr, st, ins, site, args, cont):
@@ -252,14 +255,13 @@ class CallMixin:
             e = SliceV(fint('strarr'), IntVal(0), e.slen, e.slen, s.et)
         et = s.et
         n = e.len
-        # case 1: fits
+        # two paths: the elements fit in place, or a fresh larger array receives a copy
         for fits in (True, False):
             cond = (s.len + n <= s.cap) if fits else (s.len + n > s.cap)
             if not self.feasible(st, cond): continue
             s2 = st.copy(); s2.assume(cond)
             if fits:
                 res = SliceV(s.arr, s.base, s.len + n, s.cap, et)
-                # appending to a nil slice with n == 0 stays nil; with cap 0 and n>0 impossible here
                 self.mem_copy(s2, SliceV(s.arr, s.base + s.len, n, n, et), e, n)
             else:
                 arr = s2.newref('append')
